@@ -569,6 +569,10 @@ def make_program(geo: Dict[str, Any], cfg_seed: int, identity: bool = False) -> 
     rewrite = geo.get("rewrite")
     if rewrite is not None:
         # the same assembled mesh is written again after some vertices were moved
+        if not rewrite and geo.get("rewrite_remesh"):
+            # ... by a second Mesh object that the same operations are added to
+            ops.append({"op": "remesh"})
+            ops.append({"op": "assemble"})
         for mv in rewrite:
             ops.append(dict({"op": "move_vertex", "d": mv["d"]}, **({"point": mv["point"]} if "point" in mv else {"index": mv["index"]})))
         ops.append({"op": "write", "path": DICT_PATH + ".second"})
